@@ -261,6 +261,61 @@ def run_menu_case(item):
         shutil.rmtree(root, ignore_errors=True)
 
 
+def model_printer(rep, t):
+    wd = tlc.workdir('c05p')
+    consts = {'MaxN': 60 if t == 'quick' else 130, 'Nums': '{1, 2, 3, 10}', 'Lasts': '{0, 1, 3}'}
+    cfg = tlc.write_cfg(os.path.join(wd, 'pr.cfg'), constants=consts, constraints=['Export'],
+                        invariants=['EndsAtLastRow', 'StartsAtFirstRow', 'InOrder', 'EllipsisExactlyAtGaps', 'ShowsTail', 'EmptyPrintsNothing'])
+    res = tlc.run_tlc('Printer', cfg, workers=1, allow_violation=False)
+    rep.add_tlc(res, 'Printer: which rows are shown for every stream length 0..%(MaxN)s x num_rows %(Nums)s x last_rows %(Lasts)s' % consts)
+    seen, out = set(), []
+    for c in res.cases:
+        k = (c['n'], c['num'], c['last'])
+        if k not in seen:
+            seen.add(k)
+            out.append(c)
+    return out
+
+
+def printer_case(c):
+    """the real printer on a stream of n rows: the first column of the printed table (row numbers and '...') must be the model's"""
+    import dataflows as DF
+    from dataflows import Flow
+    setup_repo()
+    tables, heads = [], []
+    kw = dict(num_rows=c['num'], header_print=lambda h, k: heads.append(h), table_print=lambda d, k: tables.append(d))
+    if c['last']:
+        kw['last_rows'] = c['last']
+    rows = [dict(i=k, s='r%d' % k) for k in range(1, c['n'] + 1)]
+    from ..common import tuple_source
+
+    def later_edit(row):
+        row['s'] = 'EDITED'          # a later step edits rows in place: the printer shows the rows as they were at its position
+    try:
+        with contextlib.redirect_stdout(io.StringIO()):
+            ds = Flow(tuple_source([('t', [('i', 'integer'), ('s', 'string')], rows)]), DF.printer(**kw), later_edit).datastream()
+            passed = [r['i'] for res in ds.res_iter for r in res]
+    except Exception as e:
+        return dict(ok=False, why='raised %s: %s' % (type(e).__name__, str(e)[:160]))
+    if passed != list(range(1, c['n'] + 1)):
+        return dict(ok=False, why='rows passed downstream differ', got=passed[:10])
+    if heads != ['t'] or len(tables) != 1:
+        return dict(ok=False, why='one header and one table per resource expected', got=[heads, len(tables)])
+    got, cells = [], []
+    for ln in tables[0].splitlines():
+        tok = ln.split()
+        if tok and (tok[0].isdigit() or tok[0] == '...'):
+            got.append(0 if tok[0] == '...' else int(tok[0]))
+            if tok[0].isdigit():
+                cells.append(tok[1:])
+    if got != c['printed']:
+        return dict(ok=False, why='printed rows differ from Printer.tla', got=got, want=c['printed'])
+    bad = [x for x, k in zip(cells, [v for v in got if v]) if x != [str(k), 'r%d' % k]]
+    if bad:
+        return dict(ok=False, why='a printed row does not show the row as it was at the printer', got=bad[:3])
+    return dict(ok=True)
+
+
 def run_failed_case(item):
     """a run that FAILS while rows are flowing: whatever stream / checkpoint has published under its final name afterwards
     must still be the full stream at its position - i.e. nothing, since the full stream never passed (the unfinished
@@ -348,6 +403,18 @@ def run():
         if not out['ok']:
             rep.violation(it, dict(case=it, **{k: v for k, v in out.items() if k != 'ok'}),
                           category='menu/%s/%s' % (it['obs'], out['why'][:50]))
+    pcases = model_printer(rep, t)
+    if t == 'quick':
+        r.shuffle(pcases)
+        pcases = [c for c in pcases if c['n'] in (0, 1, 2, 3, 11, 12, 13, 21, 22)][:150] + pcases[:250]
+    for c, out in zip(pcases, pmap(printer_case, pcases, chunksize=8)):
+        if '__harness_error__' in out:
+            raise tlc.MachineryError('harness error in printer replay: ' + out['__harness_error__'])
+        rep.count(1, traces=1)
+        rep.mark_distinct(dict(printer=[c['n'], c['num'], c['last']]))
+        if not out['ok']:
+            rep.violation(dict(printer=c), dict(n=c['n'], num_rows=c['num'], last_rows=c['last'], **{k: v for k, v in out.items() if k != 'ok'}),
+                          category='printer/%s' % out['why'][:40])
     fitems = [dict(failed_run=True, obs=o, fail=f, k=k, n=n) for o in ('stream', 'checkpoint') for f in ('source', 'later', 'later_end')
               for (k, n) in ((0, 3), (2, 3), (150, 400), (399, 400))]
     for it, out in zip(fitems, pmap(run_failed_case, fitems, chunksize=4)):
@@ -369,7 +436,11 @@ def replay(path):
     setup_repo()
     rec = json.load(open(path))
     c = rec['case']
-    if c.get('failed_run'):
+    if 'printer' in c:
+        out = printer_case(c['printer'])
+        print(json.dumps(out, default=str)[:2000])
+        bad = not out['ok']
+    elif c.get('failed_run'):
         out = run_failed_case(c)
         print(json.dumps(out, default=str)[:2000])
         bad = not out['ok']
